@@ -8,6 +8,7 @@ prints the path of the artefact on stdout (last line).
 """
 import glob
 import hashlib
+import threading
 import os
 import re
 import subprocess
@@ -88,6 +89,37 @@ def run(cmd):
         raise SystemExit("build failed")
 
 
+def _tmp(path):
+    """a private name next to `path`: outputs are written there and renamed into place, so that a concurrent thread or process
+    never executes (ETXTBSY) or links a half-written file"""
+    return "%s.tmp.%d.%d" % (path, os.getpid(), threading.get_ident())
+
+
+def _stamp(stamp, key):
+    tmp = _tmp(stamp)
+    with open(tmp, "w") as f:
+        f.write(key)
+    os.replace(tmp, stamp)
+
+
+_LOCK = threading.RLock()
+
+
+def _locked(fn):
+    def w(*a, **k):
+        with _LOCK:
+            return fn(*a, **k)
+    w.__name__ = fn.__name__
+    return w
+
+
+def _compile(job):
+    cmd, o = job
+    tmp = _tmp(o) + ".o"
+    run(cmd + [tmp])
+    os.replace(tmp, o)
+
+
 def compile_objs(kind):
     """compile every TU of src/ for option set `kind`; returns {src: obj}"""
     gen_config()
@@ -105,11 +137,11 @@ def compile_objs(kind):
             olds = sorted(glob.glob(os.path.join(odir, rel + ".*.o")), key=os.path.getmtime)
             for old in olds[:-3]:   # keep a few versions: seeds / mutants are applied and reverted all the time
                 os.remove(old)
-            jobs.append([CXX] + flags + ["-c", s, "-o", o])
+            jobs.append(([CXX] + flags + ["-c", s, "-o"], o))
     if jobs:
         log("compiling %d TUs (%s)" % (len(jobs), kind))
         with cf.ThreadPoolExecutor(NJOBS) as ex:
-            list(ex.map(run, jobs))
+            list(ex.map(_compile, jobs))
     return objs, flags
 
 
@@ -117,6 +149,7 @@ def is_main(s):
     return s.endswith(os.path.join("src", "main.cpp"))
 
 
+@_locked
 def build_lib(kind):
     objs, flags = compile_objs(kind)
     members = [o for s, o in objs.items() if not is_main(s)]
@@ -124,14 +157,14 @@ def build_lib(kind):
     lib = os.path.join(BUILD, "libino-%s.a" % kind)
     stamp = lib + ".key"
     if not (os.path.exists(lib) and os.path.exists(stamp) and read(stamp).decode() == key):
-        if os.path.exists(lib):
-            os.remove(lib)
-        run(["ar", "rcs", lib] + members)
-        with open(stamp, "w") as f:
-            f.write(key)
+        tmp = _tmp(lib)
+        run(["ar", "rcs", tmp] + members)
+        os.replace(tmp, lib)
+        _stamp(stamp, key)
     return lib, flags, key
 
 
+@_locked
 def build_bin(kind):
     libkind = "plain" if kind == "hook" else kind
     lib, _, libkey = build_lib(libkind)
@@ -148,7 +181,7 @@ def build_bin(kind):
         if not os.path.exists(mo):
             for old in glob.glob(os.path.join(odir, "main.*.o")):
                 os.remove(old)
-            run([CXX] + flags + ["-c", s, "-o", mo])
+            _compile(([CXX] + flags + ["-c", s, "-o"], mo))
     else:
         mo = [o for s, o in objs.items() if is_main(s)][0]
     bdir = os.path.join(BUILD, "bin-" + kind)
@@ -157,12 +190,14 @@ def build_bin(kind):
     key = sha(mo, libkey)[:16]
     stamp = exe + ".key"
     if not (os.path.exists(exe) and os.path.exists(stamp) and read(stamp).decode() == key):
-        run([CXX, mo, lib] + (SANLINK if kind == "san" else []) + LIBS + ["-o", exe])
-        with open(stamp, "w") as f:
-            f.write(key)
+        tmp = _tmp(exe)
+        run([CXX, mo, lib] + (SANLINK if kind == "san" else []) + LIBS + ["-o", tmp])
+        os.replace(tmp, exe)
+        _stamp(stamp, key)
     return exe
 
 
+@_locked
 def build_h5json():
     src = os.path.join(VERIF, "tools", "h5json.cpp")
     exe = os.path.join(VERIF, "build", "h5json")
@@ -170,13 +205,15 @@ def build_h5json():
     key = sha(read(src))[:16]
     stamp = exe + ".key"
     if not (os.path.exists(exe) and os.path.exists(stamp) and read(stamp).decode() == key):
+        tmp = _tmp(exe)
         run([CXX, "-std=c++14", "-O2", "-w", "-I" + H5INC, src, "-L" + H5LIB, "-lhdf5_cpp", "-lhdf5",
-             "-Wl,-rpath," + H5LIB, "-o", exe])
-        with open(stamp, "w") as f:
-            f.write(key)
+             "-Wl,-rpath," + H5LIB, "-o", tmp])
+        os.replace(tmp, exe)
+        _stamp(stamp, key)
     return exe
 
 
+@_locked
 def build_harness(name, kind="plain"):
     lib, flags, libkey = build_lib(kind)
     src = os.path.join(VERIF, "harness", name + ".cpp")
@@ -190,9 +227,10 @@ def build_harness(name, kind="plain"):
     stamp = exe + ".key"
     if not (os.path.exists(exe) and os.path.exists(stamp) and read(stamp).decode() == key):
         log("building harness %s (%s)" % (name, kind))
-        run([CXX] + hflags + [src, lib] + (SANLINK if kind == "san" else []) + LIBS + ["-fopenmp", "-o", exe])
-        with open(stamp, "w") as f:
-            f.write(key)
+        tmp = _tmp(exe)
+        run([CXX] + hflags + [src, lib] + (SANLINK if kind == "san" else []) + LIBS + ["-fopenmp", "-o", tmp])
+        os.replace(tmp, exe)
+        _stamp(stamp, key)
     return exe
 
 
